@@ -1006,7 +1006,9 @@ type rreadServerPayloader struct {
 	rread
 
 	fullBuffer []byte
-	cs         *connState
+
+	// bufs is the set of read buffers fullBuffer was taken from.
+	bufs *readBuffers
 }
 
 // rread is the response for a Tread.
@@ -1072,8 +1074,8 @@ func (r *rreadServerPayloader) SetPayload(p []byte) {
 // PayloadCleanup implements payloader.PayloadCleanup.
 func (r *rreadServerPayloader) PayloadCleanup() {
 	// Fill it with zeros to not risk leaking previous files' data.
-	copy(r.Data, r.cs.pristineZeros)
-	r.cs.readBufPool.Put(&r.fullBuffer)
+	copy(r.Data, r.bufs.pristineZeros)
+	r.bufs.pool.Put(&r.fullBuffer)
 }
 
 // String implements fmt.Stringer.
